@@ -21,7 +21,7 @@
     Stuck (ended session, remote side quiet for 0.5 s + 2 s slack, yet typed text is dropped / the
     probe is withheld); the process dying on Ctrl-C right after the header (isolated children).
 """
-import os, json, re, random, threading, shutil
+import os, json, re, random, threading, time
 import vlib
 
 ASSUMPTIONS = [
@@ -349,14 +349,8 @@ def run(tier, v):
         cov["repaired_variant_strict"] = {"ok": bool(rr["ok"]), "violated": rr["violated"], "states": rr["distinct"]}
         if not rr["ok"]:
             raise vlib.Infra("the repaired variant violates %s: %s" % (rr["violated"], tlc_trace(rr["out"])))
-    # the strict property on the observed deviations: TLC's own counterexample, for the record
-    for flag, cfg, inv in ((f0, "Zmodem_f0.cfg", "NoCrash"), (f1, "Zmodem_f1.cfg", "NotStuck")):
-        if flag:
-            rs = vlib.tlc("Zmodem", cfg, timeout=600, heap="4g", workers=2)
-            if rs["violated"] != inv:
-                raise vlib.Infra("real code shows the deviation but %s gives %s" % (cfg, rs["violated"]))
-            cov.setdefault("design_counterexamples", {})[inv] = tlc_trace(rs["out"])
-    # binding demonstration
+    # the strict property on the observed deviations (TLC's own counterexample, for the record) and the
+    # binding demonstration, side by side
     def corrupt(ev):
         ev = [dict(e) for e in ev]
         k = [i for i, e in enumerate(ev) if e.get("e") == "srvdone" and e.get("disp") == "pass"]
@@ -367,8 +361,37 @@ def run(tier, v):
         k = [i for i, e in enumerate(ev) if e.get("e") == "tsrv" and e.get("c") == "can"]
         j = k[len(k) // 2]
         return ev[:j] + ev[j + 1:]
-    cov["selftest_corrupt_rejected"] = vlib.selftest_reject("ZmodemTrace", "ZmodemTrace.cfg", first_file, corrupt)
-    cov["selftest_drop_rejected"] = vlib.selftest_reject("ZmodemTrace", "ZmodemTrace.cfg", first_file, drop)
+    tail = {}
+
+    def job(name, fn):
+        try:
+            tail[name] = fn()
+        except Exception as e:
+            tail[name] = e
+    jobs = [("corrupt", lambda: vlib.selftest_reject("ZmodemTrace", "ZmodemTrace.cfg", first_file, corrupt)),
+            ("drop", lambda: vlib.selftest_reject("ZmodemTrace", "ZmodemTrace.cfg", first_file, drop))]
+    if f0:
+        jobs.append(("NoCrash", lambda: vlib.tlc("Zmodem", "Zmodem_f0.cfg", timeout=600, heap="4g", workers=2)))
+    if f1:
+        jobs.append(("NotStuck", lambda: vlib.tlc("Zmodem", "Zmodem_f1.cfg", timeout=600, heap="4g", workers=2)))
+    tths = []
+    for name, fn in jobs:
+        t = threading.Thread(target=job, args=(name, fn))
+        t.start()
+        tths.append(t)
+        time.sleep(0.3)
+    for t in tths:
+        t.join()
+    for name, val in tail.items():
+        if isinstance(val, Exception):
+            raise val
+    for inv in ("NoCrash", "NotStuck"):
+        if inv in tail:
+            if tail[inv]["violated"] != inv:
+                raise vlib.Infra("real code shows the deviation but the spec's variant gives %s for %s" % (tail[inv]["violated"], inv))
+            cov.setdefault("design_counterexamples", {})[inv] = tlc_trace(tail[inv]["out"])
+    cov["selftest_corrupt_rejected"] = tail["corrupt"]
+    cov["selftest_drop_rejected"] = tail["drop"]
     if nrej == 0 and not (cov["selftest_corrupt_rejected"] and cov["selftest_drop_rejected"]):
         raise vlib.Infra("binding self-test failed: corrupted trace accepted")
     ev0 = vlib.read_ndjson(first_file)
